@@ -425,6 +425,8 @@ func errClass(err error) string {
 		return "sequence"
 	case strings.Contains(s, "invalid block body"):
 		return "body"
+	case strings.Contains(s, "rejected by BFT engine"):
+		return "bft"
 	case strings.Contains(s, "temporary unprocessable"):
 		return "unprocessable"
 	case strings.Contains(s, "parent block is missing"):
@@ -433,8 +435,10 @@ func errClass(err error) string {
 		return "ancestor:" + s
 	case strings.Contains(s, "context"):
 		return "ctx:" + s
+	case strings.HasPrefix(s, "block ") && (strings.Contains(s, "invalid") || strings.Contains(s, "mismatch")):
+		return "consensus" // consensus.Process refused the block (signer / total score / roots / ...)
 	default:
-		return "consensus" // every other error comes out of bft/consensus/commit; the text is kept in stats
+		return "other:" + s // a db, bft or commit error is not the refusal of an invalid block
 	}
 }
 
